@@ -370,18 +370,25 @@ class Ref:
         return bound
 
     # --- two-particle GF ------------------------------------------------------------------------
-    def chi4(self, i, j, k, l, n1, n2, n3, return_scale=False):
+    def chi4(self, i, j, k, l, n1, n2, n3, return_scale=False, shifts=None):
         """chi_ijkl(w_n1, w_n2; w_n3) by direct evaluation of the time-ordered triple integral:
         for each ordering of the first three operators the integral over beta>t1>t2>t3>0 equals
         beta^3 * exp[z0,z1,z2,z3] (Hermite-Genocchi divided difference)."""
         beta = self.beta
         E = self.E
         w = self.w
-        ops = [(self.C(i), 2 * n1 + 1), (self.C(j), 2 * n2 + 1), (self.Cd(k), -(2 * n3 + 1))]
+        # beta * frequency of each operator: i pi (2n+1) on the Matsubara axis; shifts = (mu1, mu2, mu3) adds beta*mu_k, i.e. the
+        # analytic continuation of the Lehmann sum to z_k = i w_n_k + mu_k (Fourier signs e^{i w beta} = -1 already substituted, as the
+        # library does; the resonant (confluent) terms appear where a bosonic combination of the z's meets a pole difference exactly)
+        sh = shifts or (0.0, 0.0, 0.0)
+        ops = [(self.C(i), 1j * math.pi * (2 * n1 + 1) + beta * sh[0]), (self.C(j), 1j * math.pi * (2 * n2 + 1) + beta * sh[1]),
+               (self.Cd(k), -(1j * math.pi * (2 * n3 + 1) + beta * sh[2]))]
         O4 = self.Cd(l)
         total = 0.0 + 0.0j
         scale = 0.0
         self.last_chain_abs = 0.0          # sum over all chains and orderings of |matrix-element product|
+        self.last_ambiguous = False        # shifted frequencies only: a bosonic combination of the z's lies within 1e-9..1e-5 of a pole
+                                           # difference, or meets the difference of two *different* levels exactly (continuation not unique)
         self.last_cond = 0.0               # beta^3 * sum over chains of |M| * sum_k |f_k| / prod_{j!=k} |z_k - z_j|: the sum of the
                                            # absolute values of the individual Lehmann contributions (coinciding nodes count as distance 1)
         D = self.D
@@ -418,6 +425,10 @@ class Ref:
                 continue
             s1 = np.concatenate(a1); s2 = np.concatenate(a2); s3 = np.concatenate(a3); s4 = np.concatenate(a4)
             M = np.concatenate(mm)
+            if shifts is not None:
+                for dz, dE in ((np.abs(beta * (E[s1] - E[s3]) + k1 + k2), np.abs(E[s1] - E[s3])), (np.abs(beta * (E[s2] - E[s4]) + k2 + k3), np.abs(E[s2] - E[s4]))):
+                    if np.any((dz > 1e-9 * beta) & (dz < 1e-5 * max(beta, 1.0))) or np.any((dz <= 1e-9 * beta) & (dE > DEG_TOL)):
+                        self.last_ambiguous = True
             val = _dd_exp4(beta, E[s1], E[s2], E[s3], E[s4], w[s1], w[s2], w[s3], w[s4], k1, k2, k3)
             total += sign * np.sum(M * val)
             scale += float(np.sum(np.abs(M) * (w[s1] + w[s2] + w[s3] + w[s4])))
@@ -446,19 +457,18 @@ def _dd_exp4(beta, E1, E2, E3, E4, w1, w2, w3, w4, k1, k2, k3):
     """w1 * exp[z0,z1,z2,z3] with z0=0, z1=beta(E1-E2)+i pi k1, z2=beta(E1-E3)+i pi (k1+k2),
     z3=beta(E1-E4)+i pi (k1+k2+k3); k1,k3 odd combos.  f_k = w1 exp(z_k) = +-w_{k+1} (no overflow).
     Coinciding nodes (only z0~z2 and z1~z3 can) are treated with the confluent table."""
-    pi = math.pi
+    # k1, k2, k3 are beta * (complex frequency) of the three operators; each is fermionic, hence the alternating signs
     z0 = np.zeros(len(E1), dtype=complex)
-    z1 = beta * (E1 - E2) + 1j * pi * k1
-    z2 = beta * (E1 - E3) + 1j * pi * (k1 + k2)
-    z3 = beta * (E1 - E4) + 1j * pi * (k1 + k2 + k3)
+    z1 = beta * (E1 - E2) + k1
+    z2 = beta * (E1 - E3) + (k1 + k2)
+    z3 = beta * (E1 - E4) + (k1 + k2 + k3)
     f0 = w1.astype(complex)
-    f1 = w2 * ((-1.0) ** (k1 % 2))
-    f2 = w3 * ((-1.0) ** ((k1 + k2) % 2))
-    f3 = w4 * ((-1.0) ** ((k1 + k2 + k3) % 2))
-    f1 = f1.astype(complex); f2 = f2.astype(complex); f3 = f3.astype(complex)
+    f1 = -w2.astype(complex)
+    f2 = w3.astype(complex)
+    f3 = -w4.astype(complex)
     tol = 1e-7 * max(beta, 1.0)
-    c02 = (k1 + k2 == 0) & (np.abs(z2 - z0) < tol)
-    c13 = (k2 + k3 == 0) & (np.abs(z3 - z1) < tol)
+    c02 = np.abs(z2 - z0) < tol
+    c13 = np.abs(z3 - z1) < tol
     out = np.zeros(len(E1), dtype=complex)
 
     # all distinct
@@ -490,12 +500,11 @@ def _dd_exp4(beta, E1, E2, E3, E4, w1, w2, w3, w4, k1, k2, k3):
 def _dd_cond4(beta, E1, E2, E3, E4, w1, w2, w3, w4, k1, k2, k3):
     """sum_k |f_k| / prod_{j != k} |z_k - z_j| for the nodes of _dd_exp4; a pair of coinciding nodes (same rule as there)
     counts as distance 1, which is the magnitude of the confluent (resonant) term"""
-    pi = math.pi
-    z = [np.zeros(len(E1), dtype=complex), beta * (E1 - E2) + 1j * pi * k1, beta * (E1 - E3) + 1j * pi * (k1 + k2),
-         beta * (E1 - E4) + 1j * pi * (k1 + k2 + k3)]
+    z = [np.zeros(len(E1), dtype=complex), beta * (E1 - E2) + k1, beta * (E1 - E3) + (k1 + k2),
+         beta * (E1 - E4) + (k1 + k2 + k3)]
     f = [np.abs(w1), np.abs(w2), np.abs(w3), np.abs(w4)]
     tol = 1e-7 * max(beta, 1.0)
-    conf = {(0, 2): (k1 + k2 == 0) & (np.abs(z[2] - z[0]) < tol), (1, 3): (k2 + k3 == 0) & (np.abs(z[3] - z[1]) < tol)}
+    conf = {(0, 2): np.abs(z[2] - z[0]) < tol, (1, 3): np.abs(z[3] - z[1]) < tol}
     out = np.zeros(len(E1))
     for k in range(4):
         den = np.ones(len(E1))
